@@ -10,7 +10,8 @@ from ..core import Check, Space
 BODIES = {
     ("Int",): ["x", "x + 1", "(x, 1)", "(x if x > 1 else 0)", "(lambda y: y + x)(2)", "(lambda x: x + 1)(x)",
                "(lambda v, s=2: v * s)(x + 1)", "(lambda *a: a[0] + 1)(x)", "(lambda v, s=2: v * s)(x + 1, s=x)",
-               "(lambda v: (lambda w=3: w + v)())(x)", "(lambda t: (lambda t_1: t + x))(1)(2)",
+               "(lambda v: (lambda w=3: w + v)())(x)", "(lambda y=x: y + 1)()", "(lambda v, *, k=x: v + k)(1)",
+               "(lambda v, w=x + 1: (v, w))(x)", "(lambda t: (lambda t_1: t + x))(1)(2)",
                "(lambda t: (lambda t_1, t_2=5: t + x + t_2))(1)(2)"],
     ("Jet",): ["x", "x.pt", "x.tr.Select(lambda t: t.q + x.pt)", "x.tr.Select(lambda x: x.q)",
                "x.tr.Where(lambda t: t.q > x.eta).Count()", "x.tr.Select(lambda j: (j.q, x.pt))",
@@ -84,6 +85,29 @@ def helper_def(name, params, body, form):
     return f"{name} = lambda {ps}: {body}\n"
 
 
+# helper definitions written out in full: lexical scoping between helpers, starred arguments
+RAW = [
+    # the outer helper's parameter is spelled like a name that is free in the inner helper (a builtin / a global)
+    ("def g(v): return len([v, v])\ndef h(len): return g(len) + 1\n", "h(e.a)"),
+    ("def g(v): return len([v, v])\ndef h(len): return g(len) + 1\n", "e.jets.Select(lambda len: h(len.pt))"),
+    ("def g(v): return len([v, v])\ndef h(len): return g(len) + 1\n", "[h(len.pt) for len in e.jets if len.pt > 0]"),
+    ("def h(v): return len([v, v]) + abs(v)\n", "e.jets.Select(lambda len: len.tr.Select(lambda abs: h(abs.q + len.pt)))"),
+    ("def h(v): return len([v, v])\n", "(lambda len: h(len))(e.a)"),
+    ("W = 5\ndef g(v): return v + W\ndef h(W): return g(W) * 2\n", "h(e.a)"),
+    ("def g(v): return abs(v)\ndef h(abs): return g(abs)\n", "h(e.a)"),
+    ("g = (lambda v: list([v]))\ndef h(list): return g(list)\n", "h(e.a)"),
+    # three levels
+    ("def k(a): return len([a])\ndef g(len): return k(len) + len\ndef h(x): return g(x)\n", "h(e.a)"),
+    # starred / double-starred arguments cannot be bound to single parameters
+    ("def h(x): return x\n", "h(*[e.a])"),
+    ("def h(x, y): return (y, x)\n", "h(*[e.a, e.b])"),
+    ("def h(x, y): return (y, x)\n", "h(e.a, *[e.b])"),
+    ("def h(x, y=3): return (y, x)\n", "h(**{'x': e.a})"),
+    # a helper with defaulted parameters (left as a call of a lambda; the simplifier binds the defaults)
+    ("def h(x, scale=2): return x * scale\n", "h(e.a)"),
+    ("def h(x, scale=2): return x * scale\n", "h(e.a, scale=e.b)"),
+    ("def h(x, *, scale=2): return x * scale\n", "h(e.a)"),
+]
 _N = [0]
 
 
@@ -110,6 +134,8 @@ class C05(Check):
                     for form in FORMS:
                         for s in range(len(SITES[sig])):
                             out.append((sig, b, form, s, None))
+            for k in range(len(RAW)):
+                out.append((("raw",), k, "raw", None, None))
             for sig, outers in NESTED.items():
                 for o in range(len(outers)):
                     for b in range(len(BODIES[sig])):
@@ -132,6 +158,8 @@ class C05(Check):
     def run_case(self, payload):
         sig, b, form, s, o = payload
         sig = tuple(sig)
+        if form == "raw":
+            return self._run((), RAW[b][0], "raw", RAW[b][1].replace("{", "{{").replace("}", "}}"), None, repr(payload))
         return self._run(sig, BODIES[sig][b], form, SITES[sig][s], o, repr(payload))
 
     def _run(self, sig, body, form, site_tpl, o, canon):
@@ -139,9 +167,11 @@ class C05(Check):
 
         params = ["x", "y"][:len(sig)]
         res = {"n": 0, "nt": [canon], "oc": [], "tags": {}, "viol": []}
-        g = {"len": len, "list": list, "EFFECTS": []}
+        g = {"len": len, "list": list, "abs": abs, "EFFECTS": []}
         pre = []
-        if o is None:
+        if form == "raw":
+            text = body  # the helper definitions written out in full
+        elif o is None:
             text = helper_def("h", params, body, form)
         else:
             text = helper_def("g", params, body, form) + helper_def("h", params, NESTED[sig][o], form)
@@ -151,7 +181,7 @@ class C05(Check):
             hfn = f"<c05hmod{_N[0]}>"
             linecache.cache[hfn] = (len(text), None, text.splitlines(True), hfn)
             pre.append(hfn)
-            hg = {"len": len, "list": list}
+            hg = {"len": len, "list": list, "abs": abs}
             exec(compile(text, hfn, "exec"), hg)
             g.update({k: v for k, v in hg.items() if k in ("h", "g")})
             text = "OFF = 99\n"
@@ -180,8 +210,8 @@ class C05(Check):
             for f_ in pre:
                 linecache.cache.pop(f_, None)
         emitted = st.query_ast.args[1]
-        helpers = {k: v for k, v in g.items() if k in ("h", "g")}
-        free = refsem.free_names(emitted) - set(helpers) - {"len", "list"}
+        helpers = {k: v for k, v in g.items() if k in ("h", "g", "k")}
+        free = refsem.free_names(emitted) - set(helpers) - {"len", "list", "abs"}
         shown = _unparse(emitted)
         if free:
             res["oc"].append("unbound")
@@ -191,7 +221,7 @@ class C05(Check):
         inlined = not (refsem.free_names(emitted) & set(helpers))
         try:
             fq = refsem.compile_query(ast.Call(ast.Name("Select", ast.Load()), [ast.Name("ds", ast.Load()), emitted], []),
-                                      extra_env=dict(helpers, list=list))
+                                      extra_env=dict(helpers, list=list, abs=abs))
         except Exception as e:
             res["viol"].append({"kind": "emitted-lambda-uncompilable", "canon": canon, "msg": f"{e}: {shown}"[:200]})
             return res
